@@ -18,7 +18,9 @@ EXTRA = {"C01-2": ["C07"], "C04-1": ["C07"], "C06-2": ["C07"], "C03-b1": ["C07"]
          "C13-u2": ["C07"], "C11-u1": ["C18"], "C11-u2": ["C12", "C13", "C09"], "C18-u1": ["C03"], "C18-u2": ["C11", "C12", "C09"],
          "C06-u1": ["C17", "C19"], "C06-u2": ["C01"], "C17-u2": ["C11"], "C12-u1": ["C09"], "C12-u2": ["C16", "C11"],
          "C16-u1": ["C07"], "C16-u2": ["C07"], "C19-u1": ["C06"], "C19-u2": ["C07"], "C09-u1": ["C12"], "C09-u2": ["C10", "C13"],
-         "C03-u1": ["C18"], "C03-u2": ["C07", "C08"], "C08-u1": ["C12"], "C08-u2": ["C13"]}
+         "C03-u1": ["C18"], "C03-u2": ["C07", "C08"], "C08-u1": ["C12"], "C08-u2": ["C13"],
+         "C02-u2": ["C01"], "C04-u1": ["C18", "C05"], "C04-u2": ["C07", "C16"], "C07-u1": ["C08", "C16"], "C07-u2": ["C08"],
+         "C10-u1": ["C09", "C13"], "C10-u2": ["C05"], "C15-u1": ["C18", "C03"], "C15-u2": ["C05", "C18", "C04"]}
 def run_one(name, checks):
     d = os.path.join(SEEDED, name)
     wt = tempfile.mkdtemp(prefix="hsv-mx-", dir="/tmp"); os.rmdir(wt)
